@@ -250,6 +250,35 @@ static void doc_family(FILE *out, vf::Rng &rng, int w, bool families) {
             }
         }
     }
+    // (once per width) texts that are NOT JSON although a lenient reader takes them: a NUL behind a literal, raw control characters in
+    // strings and keys, a high surrogate escape that is not followed by a \\u escape; and the leniencies the repository's own tests pin
+    // (families capU / hexnum / numgram: recorded findings)
+    static bool lenient_done[3] = {false, false, false};
+    if (!lenient_done[wi]) {
+        lenient_done[wi] = true;
+        auto emit = [&](const char *fam, const std::string &txt) {
+            std::vector<long> m;
+            for (unsigned char ch : txt) m.push_back(ch);
+            event<Ch>(out, w, fam, m);
+        };
+        for (const char *lit : {"true", "false", "null"}) {
+            emit("nulit", std::string("[") + lit + std::string(1, '\0') + "]");
+            emit("nulit", std::string("{\"a\":") + lit + std::string(1, '\0') + "}");
+            emit("nulit", std::string("[") + lit + std::string(1, '\0') + "false]");
+            emit("nulit", std::string("[") + std::string(lit).substr(0, 3) + std::string(1, '\0') + "]");
+        }
+        for (int cch = 0; cch < 0x20; ++cch) {
+            emit("ctrl", std::string("[\"a") + std::string(1, (char)cch) + "b\"]");
+            emit("ctrl", std::string("{\"k") + std::string(1, (char)cch) + "\":1}");
+            emit("ctrl", std::string("[\"") + std::string(1, (char)cch) + "\"]");
+        }
+        // (a lone surrogate escape is grammatical JSON but no Unicode text: outside the properties; only texts that are not JSON at all)
+        for (const char *t : {"[\"\\ud83d\",1234\"]", "[\"\\ud83d\"]1234\"]", "{\"\\ud83d\",12:34\"]", "[\"\\uD83D\"\"E00\"]"})
+            emit("hisur", t);
+        for (const char *t : {"[\"\\U0041\"]", "[\"\\UD83D\\UDE00\"]", "{\"\\U0041\":1}"}) emit("capU", t);
+        for (const char *t : {"[0x10]", "[0X1f]", "[-0x10]", "{\"a\":0xAAAA}", "[0x]"}) emit("hexnum", t);
+        for (const char *t : {"[+1]", "[+1.5e3]", "[.5]", "[-.5]", "[5.]", "[0.]", "[1.e2]", "[0.e1]", "{\"a\":+1}", "{\"a\":5.}"}) emit("numgram", t);
+    }
     // a structural closing bracket replaced by the other kind / removed
     bool in_str = false;
     for (size_t i = 0; i < t.size(); ++i) {
